@@ -22,6 +22,19 @@ ID = "C06"
 PROPS_FILE = "Props/C06.v"
 COQ_TARGETS = ["Harness/H06.vo"]
 ALLOWED_AXIOMS = []
+# second tie (translator): coq/Gen/Core.v is regenerated from the source text of C.REPO on every run and
+# coq/Tie/T06.v proves generated definition = hand model (harness/translate/py2coq_core.py)
+EXTRA_PROPS = ["Tie/T06.v"]
+
+
+def prebuild(ctx):
+    import os
+    import sys
+    sys.path.insert(0, os.path.join(C.VERIF, "harness", "translate"))
+    import py2coq_core
+    py2coq_core.prebuild(ctx, C, ["clip"])
+
+
 META = {
     "level_text": "Machine-checked Coq proofs about executable models of all 16 variation operators and the 4 combinators: "
                   "clip_range (every value handed to clip ends in [lb,ub] and is not NaN, for EVERY float/inf/NaN candidate), every real-valued write goes "
